@@ -20,6 +20,9 @@ SPEC = {
     "unique_dup": "TAG_NOT_UNIQUE", "repeat_tag": "TAG_EXPRESSION_REPEATED",
     "repeat_group": "TAG_EXPRESSION_REPEATED", "repeat_group_permuted": "TAG_EXPRESSION_REPEATED",
     "empty_group": "TAG_EMPTY", "char_in_text_value": "CHARACTER_INVALID",
+    "onset_no_def": "TEMPORAL_TAG_ERROR", "onset_too_many_defs": "TEMPORAL_TAG_ERROR",
+    "onset_wrong_groups": "TEMPORAL_TAG_ERROR", "onset_tag_outside": "TEMPORAL_TAG_ERROR",
+    "duration_other_tags": "TEMPORAL_TAG_ERROR", "duration_wrong_groups": "TEMPORAL_TAG_ERROR",
 }
 
 # definitions handed to the DefinitionDict
@@ -73,8 +76,8 @@ class Vocab:
                 if "unitPrefix" in u["attrs"] or "deprecatedFrom" in u["attrs"]:
                     continue
                 if " " in u["name"]:
-                    # a unit whose NAME contains a blank (8.0.0/8.1.0 `degree Celsius`): the implementation splits the
-                    # value at the last blank and rejects it -- known finding C01-F3, exercised by its own rule
+                    # a unit whose NAME contains a blank (8.0.0/8.1.0 `degree Celsius`): former finding C01-F3 (the value
+                    # was split at the last blank), repaired by 0669633; exercised by its own rule v_unit_with_blank
                     self.blank_units.setdefault(uc["name"], []).append(u["name"])
                     continue
                 us.append({"name": u["name"], "symbol": "unitSymbol" in u["attrs"], "si": "SIUnit" in u["attrs"]})
@@ -331,7 +334,9 @@ def in_special(tree, path):
 STRUCT_RULES = ["unknown", "ext_term", "ext_forbidden", "placeholder", "require_child", "bad_unit", "bad_value",
                 "bad_value_char", "definition", "def_undeclared", "def_extra", "def_missing", "defexpand_altered",
                 "tag_group", "top_level", "multi_top", "unique_dup", "repeat_tag", "repeat_group",
-                "repeat_group_permuted", "prefix", "tagchar", "empty_group", "char_in_text_value"]
+                "repeat_group_permuted", "prefix", "tagchar", "empty_group", "char_in_text_value",
+                "onset_no_def", "onset_too_many_defs", "onset_wrong_groups", "onset_tag_outside",
+                "duration_other_tags", "duration_wrong_groups"]
 TEXT_RULES = ["char", "tilde", "curly", "paren", "empty", "missing_comma", "slash"]
 
 
@@ -469,6 +474,37 @@ def mutate(rng, V, tree, rule, ph, modern):
             return None
         a, b = rng.sample(V.temporal, 2)
         t.insert(rng.randint(0, len(t)), ["Def/OnDef2", a, b])
+        return render(t, rng)
+    if rule.startswith("onset_"):
+        if not (V.temporal and V.has_defs) or len(V.plain) < 4:
+            return None
+        p1, p2, p3 = [n["short"] for n in rng.sample(V.plain, 3)]
+        t0 = rng.choice(V.temporal)
+        if rule == "onset_no_def":
+            g = [t0] + ([[p1]] if t0 != "Offset" and rng.random() < 0.5 else [])
+        elif rule == "onset_too_many_defs":
+            g = ["Def/OnDef2", "Def/AltDef", t0]
+        elif rule == "onset_wrong_groups":
+            g = ["Def/OnDef2", "Offset", [p1]] if ("Offset" in V.temporal and rng.random() < 0.4) \
+                else ["Def/OnDef2", rng.choice([x for x in V.temporal if x != "Offset"] or ["Onset"]), [p1], [p2, p3]]
+        else:
+            t1 = rng.choice([x for x in V.temporal if x != "Offset"] or ["Onset"])
+            g = ["Def/OnDef2", t1, p1]
+        rng.shuffle(g)
+        t.insert(rng.randint(0, len(t)), g)
+        return render(t, rng)
+    if rule.startswith("duration_"):
+        if not V.duration_top or len(V.plain) < 4 or any(
+                isinstance(x, list) and any(isinstance(y, str) and y.split("/")[0] in V.duration_top for y in x) for x in t):
+            return None
+        p1, p2, p3 = [n["short"] for n in rng.sample(V.plain, 3)]
+        d = rng.choice(V.duration_top) + "/3 s"
+        if rule == "duration_other_tags":
+            g = [d, p1, [p2]]
+        else:
+            g = rng.choice([[d], [d, [p1], [p2, p3]]])
+        rng.shuffle(g)
+        t.insert(rng.randint(0, len(t)), g)
         return render(t, rng)
     if rule == "unique_dup":
         if not V.event_context or any(isinstance(x, list) and "Event-context" in x for x in t):
